@@ -444,30 +444,41 @@ theorem listing_ok (h : Host) (hh : HostNamesOk h) (k : Kind) : ∀ n ∈ listin
     · decide
     · exact hh n (by simp [hn])
 
-theorem rd_leaf1 (m : Mem) (buf B : Nat) (e : Err) (he : e ≠ Err.panic) (hb : buf < 4294967296) (hB : B < 4294967296)
-    (hs : m.size < 9223372036854775808) (h1 : ¬ (!m.has buf B) = true) :
-    AllSafe m [{ err := e, writes := [Wr.region buf B] }] := by
-  intro r hr'
-  simp only [List.mem_cons, List.not_mem_nil, or_false] at hr'
-  subst hr'
-  refine safe_w m _ _ he ?_
-  intro w hw'
-  simp only [List.mem_cons, List.not_mem_nil, or_false] at hw'
-  subst hw'
-  exact region_ok m buf B hb hB hs (by simpa using h1)
+theorem exact_ok (m : Mem) (buf B dNext : Nat) (ents : List (List Nat × Nat)) (C T : Nat)
+    (hreg : buf + B ≤ m.size) : ∀ w ∈ exactDirents buf B dNext ents C T, w.len = 0 ∨ w.off + w.len ≤ m.size := by
+  intro w hw
+  unfold exactDirents at hw
+  simp only [List.mem_filter, Bool.and_eq_true, decide_eq_true_eq] at hw
+  right
+  omega
 
-theorem rd_leaf2 (m : Mem) (buf B res v : Nat) (hb : buf < 4294967296) (hB : B < 4294967296) (hr : res < 4294967296)
-    (hs : m.size < 9223372036854775808) (h1 : ¬ (!m.has buf B) = true) (h2 : ¬ (!m.has res 4) = true) :
-    AllSafe m [{ err := Err.errno 0, writes := [Wr.region buf B, Wr.bytes res (bytesLE 4 v)] }] := by
-  intro r hr'
-  simp only [List.mem_cons, List.not_mem_nil, or_false] at hr'
-  subst hr'
-  refine safe_w m _ _ nofun ?_
-  intro w hw'
-  simp only [List.mem_cons, List.not_mem_nil, or_false] at hw'
-  rcases hw' with rfl | rfl
-  · exact region_ok m buf B hb hB hs (by simpa using h1)
-  · exact bytes_ok m res _ hr (by rw [bytesLE_length]; decide) hs (by rw [bytesLE_length]; simpa using h2)
+theorem rd_writes_ok (m : Mem) (buf B res v dNext : Nat) (names : List Nat) (ents : List (List Nat × Nat)) (C T : Nat)
+    (hb : buf < 4294967296) (hB : B < 4294967296) (hr : res < 4294967296)
+    (hs : m.size < 9223372036854775808) (h1 : ¬ (!m.has buf B) = true) :
+    (∀ w ∈ Wr.region buf B :: (if ents.map (fun e => e.1.length) = names then exactDirents buf B dNext ents C T else []),
+        w.len = 0 ∨ w.off + w.len ≤ m.size) ∧
+    (¬ (!m.has res 4) = true →
+      ∀ w ∈ Wr.region buf B :: ((if ents.map (fun e => e.1.length) = names then exactDirents buf B dNext ents C T else []) ++
+          [Wr.bytes res (bytesLE 4 v)]), w.len = 0 ∨ w.off + w.len ≤ m.size) := by
+  have hreg : buf + B ≤ m.size := has_le m buf B hb hB hs (by simpa using h1)
+  have hex : ∀ w ∈ (if ents.map (fun e => e.1.length) = names then exactDirents buf B dNext ents C T else []),
+      w.len = 0 ∨ w.off + w.len ≤ m.size := by
+    intro w hw
+    split at hw
+    · exact exact_ok m buf B dNext ents C T hreg w hw
+    · cases hw
+  constructor
+  · intro w hw
+    simp only [List.mem_cons] at hw
+    rcases hw with rfl | hw
+    · exact Or.inr hreg
+    · exact hex w hw
+  · intro h2 w hw
+    simp only [List.mem_cons, List.mem_append, List.not_mem_nil, or_false] at hw
+    rcases hw with rfl | hw | rfl
+    · exact Or.inr hreg
+    · exact hex w hw
+    · exact bytes_ok m res _ hr (by rw [bytesLE_length]; decide) hs (by rw [bytesLE_length]; simpa using h2)
 
 theorem rd_leaf3 (m : Mem) (res v : Nat) (hr : res < 4294967296)
     (hs : m.size < 9223372036854775808) (h2 : ¬ (!m.has res 4) = true) :
@@ -481,9 +492,17 @@ theorem rd_leaf3 (m : Mem) (res v : Nat) (hr : res < 4294967296)
   subst hw'
   exact bytes_ok m res _ hr (by rw [bytesLE_length]; decide) hs (by rw [bytesLE_length]; simpa using h2)
 
-theorem readdirEmit_safe (m : Mem) (buf bufLen res : Nat) (names : List Nat) (hn : ∀ n ∈ names, n < 4294967248)
+theorem allSafe_single (m : Mem) (e : Err) (ws : List Wr) (he : e ≠ Err.panic)
+    (hw : ∀ w ∈ ws, w.len = 0 ∨ w.off + w.len ≤ m.size) : AllSafe m [{ err := e, writes := ws }] := by
+  intro r hr'
+  simp only [List.mem_cons, List.not_mem_nil, or_false] at hr'
+  subst hr'
+  exact safe_w m _ _ he hw
+
+theorem readdirEmit_safe (m : Mem) (buf bufLen res : Nat) (names : List Nat) (ents : List (List Nat × Nat)) (dNext : Nat)
+    (hn : ∀ n ∈ names, n < 4294967248)
     (hb : buf < 4294967296) (hl : bufLen < 4294967296) (hr : res < 4294967296)
-    (hs : m.size < 9223372036854775808) : AllSafe m (readdirEmit m buf bufLen res names) := by
+    (hs : m.size < 9223372036854775808) : AllSafe m (readdirEmit m buf bufLen res names ents dNext) := by
   unfold readdirEmit
   split
   · rename_i hnone
@@ -491,13 +510,28 @@ theorem readdirEmit_safe (m : Mem) (buf bufLen res : Nat) (names : List Nat) (hn
   · rename_i B C T hsome
     obtain ⟨hw, hB⟩ := writeDirents_some names bufLen B C T hn hl hsome
     have hB' : B < 4294967296 := by omega
-    split_all
-    all_goals first
-      | rE_safe
-      | exact absurd ‹writeDirents B names C T = none› hw
-      | exact rd_leaf1 m buf B _ (by decide) hb hB' hs (by assumption)
-      | exact rd_leaf2 m buf B res _ hb hB' hr hs (by assumption) (by assumption)
-      | exact rd_leaf3 m res _ hr hs (by assumption)
+    dsimp only
+    by_cases hpos : B > 0
+    · simp only [hpos, if_true]
+      by_cases hbuf : (!m.has buf B) = true
+      · rw [if_pos hbuf]
+        rE_safe
+      · rw [if_neg hbuf]
+        cases hwd : writeDirents B names C T with
+        | none => exact absurd hwd hw
+        | some v =>
+          dsimp only
+          by_cases hres4 : (!m.has res 4) = true
+          · rw [if_pos hres4]
+            exact allSafe_single m _ _ (by decide) (rd_writes_ok m buf B res 0 dNext names ents C T hb hB' hr hs hbuf).1
+          · rw [if_neg hres4]
+            exact allSafe_single m _ _ nofun ((rd_writes_ok m buf B res _ dNext names ents C T hb hB' hr hs hbuf).2 hres4)
+    · simp only [hpos, if_false]
+      by_cases hres4 : (!m.has res 4) = true
+      · rw [if_pos hres4]
+        rE_safe
+      · rw [if_neg hres4]
+        exact rd_leaf3 m res _ hr hs hres4
 
 theorem fdReaddir_safe (h : Host) (hh : HostNamesOk h) (m : Mem) (fds : Fds) (fd buf bufLen cookie res : Nat)
     (hb : buf < 4294967296) (hl : bufLen < 4294967296) (hr : res < 4294967296)
@@ -513,7 +547,7 @@ theorem fdReaddir_safe (h : Host) (hh : HostNamesOk h) (m : Mem) (fds : Fds) (fd
       · split
         · rE_safe
         · dsimp only
-          refine readdirEmit_safe m buf bufLen res _ ?_ hb hl hr hs
+          refine readdirEmit_safe m buf bufLen res _ _ _ ?_ hb hl hr hs
           intro n hn
           exact listing_ok h hh k n (List.mem_of_mem_drop (List.mem_of_mem_take hn))
 
